@@ -39,8 +39,8 @@ theorem collectLoop_payDebt_full_zero {root fault} (fuel : Nat) :
     unfold Ctx.collectLoop at h
     have dz : ∀ x : Ctx, x.debtBreak .payDebt = true → x.metrics.allocationDebt = 0 := by
       intro x hx
-      simp only [Ctx.debtBreak, decide_true, Bool.true_and, Bool.not_eq_true'] at hx
-      exact debt_zero_of_not_hasDebt _ hx
+      simp only [Ctx.debtBreak, decide_true, Bool.true_and, Bool.and_eq_true, Bool.not_eq_true'] at hx
+      exact debt_zero_of_not_hasDebt _ hx.1
     cases hp : c.phase with
     | drop =>
       simp only [hp, Prod.mk.injEq] at h
